@@ -298,7 +298,7 @@ func emit(out *lib.Out, spec RoundSpec, obs RoundObs) {
 			for _, o := range p {
 				// explicit transactions and the default transaction of every write
 				switch o.Kind {
-				case "tx", "create", "create_batch", "update", "updates", "delete", "fresh_update", "assoc_append", "assoc_replace", "assoc_delete", "assoc_clear":
+				case "tx", "create", "create_batch", "update", "updates", "delete", "fresh_update", "assoc_append", "assoc_replace", "assoc_delete", "assoc_clear", "delete_select":
 					hasTx = true
 				}
 				if strings.Contains(o.Sess, "prep") {
